@@ -76,6 +76,7 @@ package basestreamseeder
 //@   loop 2 modifies s.sessions[*]
 //@   loop 2 invariant seedinv(s) && 0 <= _k && _k <= len(_range)
 //@   loop 2 invariant [onlypeer] forall(k sessionIDAndPeer, atentry(has(s.sessions, k)) && !has(s.sessions, k) ==> k.peer == peerID)
+//@   at call workers.Workers).Enqueue[1] requires [donemark] resp.Done == session.done && resp.SessionID == op.request.Session.ID && has(s.sessions, mk("sessionIDAndPeer", op.request.Session.ID, op.peer.ID)) && s.sessions[mk("sessionIDAndPeer", op.request.Session.ID, op.peer.ID)].done == resp.Done
 //@   loop 3 modifies s.sessions[*], s.pendingResponsesSize
 //@   loop 3 invariant seedinv(s) && op != nil && sok(s, session)
 //@   loop 3 invariant [keeps] forall(k sessionIDAndPeer, atentry(has(s.sessions, k)) ==> has(s.sessions, k))
